@@ -52,6 +52,7 @@ type Loop struct {
 	Body     Node
 	Name     string // named loop (outside the C01 scope)
 	Form     string // "maybe" "atleast" "atmost" "between" "exactly" ("" = derive)
+	Zeros    int    // leading zeros in the spelling of the counts
 }
 
 type Or struct{ Alts []Node }
@@ -99,22 +100,26 @@ type Amount struct {
 	Kind       string // all skip skiptake take top last
 	Skip, Take int
 	Last       int
+	Zeros      int // leading zeros in the spelling of every number (the value is decimal all the same)
 }
+
+// Num spells n in decimal with the given number of leading zeros.
+func Num(n, zeros int) string { return strings.Repeat("0", zeros) + fmt.Sprint(n) }
 
 func (a Amount) String() string {
 	switch a.Kind {
 	case "", "all":
 		return "all"
 	case "skip":
-		return fmt.Sprintf("skip %d", a.Skip)
+		return "skip " + Num(a.Skip, a.Zeros)
 	case "skiptake":
-		return fmt.Sprintf("skip %d take %d", a.Skip, a.Take)
+		return "skip " + Num(a.Skip, a.Zeros) + " take " + Num(a.Take, a.Zeros)
 	case "take":
-		return fmt.Sprintf("take %d", a.Take)
+		return "take " + Num(a.Take, a.Zeros)
 	case "top":
-		return fmt.Sprintf("top %d", a.Take)
+		return "top " + Num(a.Take, a.Zeros)
 	case "last":
-		return fmt.Sprintf("last %d", a.Last)
+		return "last " + Num(a.Last, a.Zeros)
 	}
 	return "all"
 }
@@ -292,13 +297,13 @@ func Render(n Node) string {
 		case "maybe":
 			s = "maybe " + bs
 		case "atleast":
-			s = fmt.Sprintf("at least %d %s", x.Min, bs)
+			s = "at least " + Num(x.Min, x.Zeros) + " " + bs
 		case "atmost":
-			s = fmt.Sprintf("at most %d %s", x.Max, bs)
+			s = "at most " + Num(x.Max, x.Zeros) + " " + bs
 		case "exactly":
-			s = fmt.Sprintf("exactly %d %s", x.Min, bs)
+			s = "exactly " + Num(x.Min, x.Zeros) + " " + bs
 		default:
-			s = fmt.Sprintf("between %d and %d %s", x.Min, x.Max, bs)
+			s = "between " + Num(x.Min, x.Zeros) + " and " + Num(x.Max, x.Zeros) + " " + bs
 		}
 		if x.Lazy && form != "exactly" {
 			s += " fewest"
